@@ -355,7 +355,7 @@ func init() {
 			if tier == "thorough" {
 				return 1700
 			}
-			return 240
+			return 400
 		},
 		RunUnit: func(c *explore.Ctx) {
 			var a C02Arg
